@@ -21,7 +21,7 @@ NS_FUNCS = dict(abs=np.abs, sqrt=np.sqrt, exp=np.exp, log=np.log, sin=np.sin, co
                 minimum=np.minimum, select=np.select, np=np)
 
 
-def build(cls_name, grid, n, u_level):
+def build(cls_name, grid, n, u_level, shift_level=0.37):
     from andes.core import block as B
     from andes.core.block import Block
     from andes.core.discrete import Discrete, AntiWindup, Limiter, LessThan
@@ -44,6 +44,8 @@ def build(cls_name, grid, n, u_level):
     for name, val in spec.get('fixed', {}).items():
         kw[name] = P(name, np.full(n, val))
     kw.update(spec.get('kwargs', {}))
+    if spec.get('shift'):
+        kw[spec['shift']] = P(spec['shift'], np.full(n, float(shift_level)))
     blk = getattr(B, cls_name)(u=u, name='B', **kw)
     items = []
 
@@ -161,6 +163,21 @@ class Blocks(Part):
             out.bad(f'equation_eval_raises:{cls}', f'{cls} [{region}]: {type(e).__name__}: {e}')
             out.obs = dict(exc=type(e).__name__)
             return out
+        # a documented reference input: the equations may depend on (u, ref) only through u - ref
+        if spec.get('shift'):
+            try:
+                e_a = residuals(base)
+                ns[spec['shift']][:] += 0.8
+                Z = base.copy()
+                Z[nv] += 0.8
+                e_b = residuals(Z)
+                ns[spec['shift']][:] -= 0.8
+                if np.max(np.abs(e_a - e_b)) > 1e-9:
+                    k, g = np.unravel_index(np.argmax(np.abs(e_a - e_b)), e_a.shape)
+                    bad(f'not_a_function_of_u_minus_ref:{cls}', f'{cls}: equation of {variables[k].name} changes by '
+                        f'{(e_b - e_a)[k, g]:.6g} when input and {spec["shift"]} are raised by the same amount')
+            except Exception as e:
+                bad(f'equation_eval_raises:{cls}', f'{cls} [{region}]: {type(e).__name__}: {e}')
         # time constants on the left-hand side
         Tc = np.zeros((nv, n))
         for k, v in enumerate(variables):
@@ -187,8 +204,11 @@ class Blocks(Part):
                     break
         # steady state from the declared initial values
         levels = [0.0] if spec.get('integrating') else [-0.7, 0.4, 1.3]
+        if spec.get('shift'):
+            levels = [(0.0, 0.0), (0.45, 0.45), (-0.6, -0.6)] if spec.get('integrating') else [(l, 0.0) for l in levels] + [(0.9, 0.45)]
         for lvl in levels:
-            blk, variables, discretes, ns, u = build(cls, grid, n, lvl)
+            lvl, sh = lvl if isinstance(lvl, tuple) else (lvl, 0.0)
+            blk, variables, discretes, ns, u = build(cls, grid, n, lvl, sh)
             try:
                 for _ in range(4):
                     refresh_flags(discretes, ns, n)
@@ -202,7 +222,7 @@ class Blocks(Part):
             if np.max(np.abs(res)) > 1e-9:
                 k, g = np.unravel_index(np.argmax(np.abs(res)), res.shape)
                 p = {name: grid[name][g] for name in names}
-                bad(f'steady_state_unbalanced:{cls}:{region}', f'{cls} [{region}] at {p}, constant input {lvl}: equation '
+                bad(f'steady_state_unbalanced:{cls}:{region}', f'{cls} [{region}] at {p}, constant input {lvl} (reference {sh}): equation '
                     f'of {variables[k].name} = {res[k, g]:.6g} with the declared initial values')
         out.obs = dict(cls=cls, region=region, points=n, nvars=nv, worst=float(f'{worst:.3e}'))
         out.transitions = n * len(S_POINTS)
